@@ -16,7 +16,7 @@ func checkC20(c *Ctx, r *Report) {
 	r.Explanation = "R2-SHARE: no library function outside init stores a slice, map or pointer loaded from a package-level variable (or a struct copied out of one that holds such references) into an object: objects built from a template or a precomputed table would share one backing array. O-REUSE: no library function re-fills a struct field or a parameter in place with append(x[:0], …) (the storage may be decoder input or shared). O-APPENDPARAM: no exported library function appends to a slice parameter (with spare capacity the caller's backing array is written behind the slice: key material laid out as iv|key) except the listed append-style API AppendProtectRange. R2 (who-may-write package-level state): every SSA store / map update / copy / delete whose address is rooted at a package-level variable " +
 		"(directly, through a pointer/slice/map header loaded from it, or through a parameter that receives such an address) must be in an init function or in the registry mutators " +
 		"mp4.SetBoxDecoder / mp4.RemoveBoxDecoder; no package-level variable of a sync/atomic type. Decides absence of hidden shared mutable state, a necessary condition of C20; " +
-		"R3: exported Decode*/Parse* functions store only into memory they allocated, never through a pointer parameter; R3-RET: no decoder returns its own pointer parameter; L-RANGEVAL: no range value variable (a copy) is assigned a new slice/pointer/struct, so results that are meant to be fresh copies do not silently stay sub-slices of the input; R3-OBS: the ~490 Size/Info/String/Type/Payload/Get*/Is*/Has* methods do not store through their receiver (two accepted, idempotent exceptions), so objects that are only looked at can be shared; O-OWN: elements of a slice held in a struct field are written only by a method of the type, a decoder/constructor named after it, or the function that made the slice (two listed exceptions); O-CAP: the sub-slices of the input that the slice reader of package bits hands out (ReadBytes, RemainingBytes) have their capacity limited to their length, so an append by the owner of a decoded box re-allocates instead of writing into the shared input; O-COPY: a byte-slice field that is grown with append is never assigned a caller's slice directly (except MdatBox.SetData, whose documented contract is to adopt it); R4: no library function calls a storage-sharing method ((*bytes.Buffer).Next/Bytes, (*bufio.Reader).Peek) on the io.Reader it was given, so decoded structures do not alias the caller's input; does not decide races inside the standard library or schedules."
+		"R3: exported Decode*/Parse* functions store only into memory they allocated, never through a pointer parameter; R3-RET: no decoder returns its own pointer parameter; L-RANGEVAL: no range value variable (a copy) is assigned a new slice/pointer/struct, so results that are meant to be fresh copies do not silently stay sub-slices of the input; R3-OBS: the ~490 Size/Info/String/Type/Payload/Get*/Is*/Has* methods do not store through their receiver (two accepted, idempotent exceptions), so objects that are only looked at can be shared; O-OWN: elements of a slice held in a struct field are written only by a method of the type, a decoder/constructor named after it, or the function that made the slice (two listed exceptions); O-CAP: the sub-slices of the input that the slice reader of package bits hands out (ReadBytes, RemainingBytes) have their capacity limited to their length, so an append by the owner of a decoded box re-allocates instead of writing into the shared input; R3-BYTES: a function of package mp4 writes into a []byte parameter only where the frozen table lists the pair as an in-place buffer; O-COPY: a byte-slice field that is grown with append is never assigned a caller's slice directly (except MdatBox.SetData, whose documented contract is to adopt it); R4: no library function calls a storage-sharing method ((*bytes.Buffer).Next/Bytes, (*bufio.Reader).Peek) on the io.Reader it was given, so decoded structures do not alias the caller's input; does not decide races inside the standard library or schedules."
 	r.Assume("call graph = VTA over CHA (x/tools v0.29.0); reflection and unsafe writes are not modelled (unsafe is used once, read-only, in avc/annexb.go)")
 	r.Assume("address escape through interface method calls into non-repository code is not followed")
 	ruleR2(c, r, map[string]bool{"mp4.SetBoxDecoder": true, "mp4.RemoveBoxDecoder": true})
@@ -53,6 +53,9 @@ func checkC20(c *Ctx, r *Report) {
 		r.Undecided("O-CAP", "scope", "", "the sub-slice results of FixedSliceReader.ReadBytes / RemainingBytes were not found")
 	}
 	requireFixture(r, "O-CAP", "takeWrong", func(fc *Ctx, s *Report) { ruleReaderResultCapacity(fc, s, nil) })
+	if n := ruleByteParamsReadOnly(c, r, byteParamWriters); n < 5 {
+		r.Undecided("R3-BYTES", "scope", "", fmt.Sprintf("only %d writing (function, []byte parameter) pairs found in package mp4", n))
+	}
 	if n := ruleNoAdoptThenAppend(c, r, "O-COPY"); n < 4 {
 		r.Undecided("O-COPY", "scope", "", fmt.Sprintf("only %d appended byte-slice fields found", n))
 	}
